@@ -417,14 +417,33 @@ def fileStem (n : List Char) : List Char :=
     if before = [] then n else before
   else n
 
+/-- `Path::extension` of a file name: `rsplit_file_at_dot` + `before.and(after)` -/
+def extensionOf (n : List Char) : Option (List Char) :=
+  if n = ['.', '.'] then none
+  else if '.' ∈ n then
+    let before := ((n.reverse.dropWhile (· ≠ '.')).drop 1).reverse
+    if before = [] then none else some (n.reverse.takeWhile (· ≠ '.')).reverse
+  else none
+
 def rsExt : List Char := ['.', 'r', 's']
 
-/-- `Path::with_extension("rs")`: truncate right after the stem of the file name, append ".rs";
-unchanged when there is no file name -/
-def withExtensionRs (p : List Char) : List Char :=
+/-- `PathBuf::set_extension("rs")`: truncate right after the stem of the file name, append ".rs";
+unchanged (returns `false`) when there is no file name -/
+def setExtensionRs (p : List Char) : List Char :=
   match fileName p with
   | none => p
   | some n => (lastComponentRev p).2.reverse ++ fileStem n ++ rsExt
+
+/-- `Path::with_extension("rs")` as std implements it: copy the path *without the bytes of the old
+extension* (the dot stays; the bytes are cut from the end of the whole string), then `set_extension`.
+For a file name `..x` the copy is `..`, which has no file name any more, so the result is `..`
+(observed with the toolchain in use; `std::path` is exercised against this model by the harness).
+The cut is modelled on characters; on bytes it can end inside a character, which `set_extension`
+then discards together with the rest of the old extension. -/
+def withExtensionRs (p : List Char) : List Char :=
+  match (fileName p).bind extensionOf with
+  | none => setExtensionRs p
+  | some ext => setExtensionRs (p.take (p.length - ext.length))
 
 /-- `dir.join(name)` for a relative `name` -/
 def pathJoin (dir name : List Char) : List Char :=
